@@ -7,6 +7,7 @@ package main
 import (
 	"go/ast"
 	"go/constant"
+	"go/token"
 	"go/types"
 	"strings"
 
@@ -78,6 +79,18 @@ func loadColog(c *Ctx) *diagInfo {
 				if ok && lvl != "" {
 					d.Headers[h] = lvl
 					d.Added = append(d.Added, h)
+				} else if rows, ok := rangeTableArgs(mp.TypesInfo, f, call); ok {
+					// for _, h := range table { colog.AddHeader(h.prefix, h.level) }
+					for _, r := range rows {
+						h, ok := constStr(mp.TypesInfo, r[0])
+						lvl := constName(mp.TypesInfo, r[1])
+						if ok && lvl != "" {
+							d.Headers[h] = lvl
+							d.Added = append(d.Added, h)
+						} else {
+							d.Undecided = true
+						}
+					}
 				} else {
 					d.Undecided = true
 				}
@@ -122,6 +135,17 @@ func ruleT11(c *Ctx) {
 					c.fail("T11", "cmd/gosk|"+fn.Name(), c.L.Pos(call.Pos()), "the header table is replaced at run time; diagnostic levels can no longer be decided statically")
 				case "SetMinLevel":
 					lvl := constName(mp.TypesInfo, call.Args[0])
+					if lvl == "" {
+						// a local variable that only ever holds permitted constants
+						if vals, ok := localConstValues(mp.TypesInfo, f, call.Args[0]); ok {
+							lvl = "LInfo"
+							for _, v := range vals {
+								if !(v == "LDebug" || v == "LInfo" || v == "LTrace" || v == "LWarning") {
+									lvl = v
+								}
+							}
+						}
+					}
 					c.check(lvl == "LDebug" || lvl == "LInfo" || lvl == "LTrace" || lvl == "LWarning", "T11", "cmd/gosk|SetMinLevel("+lvl+")", c.L.Pos(call.Pos()), "warnings and errors must not be filtered out")
 				}
 				return true
@@ -213,4 +237,185 @@ func logFormatsAST(c *Ctx, d *diagInfo, visit func(pkg, fn, format, level string
 			})
 		}
 	}
+}
+
+// rangeTableArgs: the call's arguments are fields of the value variable of a `for _, h := range
+// table` whose table is a composite literal (directly, or a variable defined once by one and
+// never assigned again); returns, per row, the expressions standing in for the arguments.
+func rangeTableArgs(info *types.Info, file *ast.File, call *ast.CallExpr) ([][]ast.Expr, bool) {
+	var hv types.Object
+	var fields []string
+	for _, a := range call.Args {
+		se, ok := ast.Unparen(a).(*ast.SelectorExpr)
+		if !ok {
+			return nil, false
+		}
+		id, ok := se.X.(*ast.Ident)
+		if !ok || info.Uses[id] == nil {
+			return nil, false
+		}
+		if hv == nil {
+			hv = info.Uses[id]
+		} else if hv != info.Uses[id] {
+			return nil, false
+		}
+		fields = append(fields, se.Sel.Name)
+	}
+	var rs *ast.RangeStmt
+	ast.Inspect(file, func(n ast.Node) bool {
+		if r, ok := n.(*ast.RangeStmt); ok {
+			if id, ok := r.Value.(*ast.Ident); ok && info.Defs[id] == hv {
+				rs = r
+			}
+		}
+		return true
+	})
+	if rs == nil {
+		return nil, false
+	}
+	var lit *ast.CompositeLit
+	switch x := ast.Unparen(rs.X).(type) {
+	case *ast.CompositeLit:
+		lit = x
+	case *ast.Ident:
+		tv := info.Uses[x]
+		if tv == nil {
+			return nil, false
+		}
+		defs, writes := 0, 0
+		ast.Inspect(file, func(n ast.Node) bool {
+			switch y := n.(type) {
+			case *ast.AssignStmt:
+				for i, l := range y.Lhs {
+					root := l
+					for {
+						if ix, ok := root.(*ast.IndexExpr); ok {
+							root = ix.X
+						} else if se, ok := root.(*ast.SelectorExpr); ok {
+							root = se.X
+						} else {
+							break
+						}
+					}
+					id, ok := root.(*ast.Ident)
+					if !ok {
+						continue
+					}
+					if info.Defs[id] == tv && root == l && len(y.Rhs) == len(y.Lhs) {
+						defs++
+						if cl, ok := ast.Unparen(y.Rhs[i]).(*ast.CompositeLit); ok {
+							lit = cl
+						}
+					} else if info.Uses[id] == tv {
+						writes++
+					}
+				}
+			case *ast.ValueSpec:
+				for i, id := range y.Names {
+					if info.Defs[id] == tv && i < len(y.Values) {
+						defs++
+						if cl, ok := ast.Unparen(y.Values[i]).(*ast.CompositeLit); ok {
+							lit = cl
+						}
+					}
+				}
+			case *ast.UnaryExpr:
+				if id, ok := ast.Unparen(y.X).(*ast.Ident); ok && y.Op == token.AND && info.Uses[id] == tv {
+					writes++
+				}
+			}
+			return true
+		})
+		if defs != 1 || writes != 0 {
+			return nil, false
+		}
+	}
+	if lit == nil {
+		return nil, false
+	}
+	var rows [][]ast.Expr
+	for _, e := range lit.Elts {
+		row, ok := ast.Unparen(e).(*ast.CompositeLit)
+		if !ok {
+			return nil, false
+		}
+		st, ok := info.TypeOf(row).Underlying().(*types.Struct)
+		if !ok {
+			return nil, false
+		}
+		var out []ast.Expr
+		for _, fn := range fields {
+			var val ast.Expr
+			for i, el := range row.Elts {
+				if kv, ok := el.(*ast.KeyValueExpr); ok {
+					if k, ok := kv.Key.(*ast.Ident); ok && k.Name == fn {
+						val = kv.Value
+					}
+				} else if i < st.NumFields() && st.Field(i).Name() == fn {
+					val = el
+				}
+			}
+			if val == nil {
+				return nil, false
+			}
+			out = append(out, val)
+		}
+		rows = append(rows, out)
+	}
+	return rows, len(rows) > 0
+}
+
+// localConstValues: e names a local variable; the names of the declared constants it is
+// defined with and assigned (every assignment must be one).
+func localConstValues(info *types.Info, file *ast.File, e ast.Expr) ([]string, bool) {
+	id, ok := ast.Unparen(e).(*ast.Ident)
+	if !ok {
+		return nil, false
+	}
+	v, ok := info.Uses[id].(*types.Var)
+	if !ok || v.Parent() == nil || v.Parent() == v.Pkg().Scope() {
+		return nil, false
+	}
+	var vals []string
+	good := true
+	ast.Inspect(file, func(n ast.Node) bool {
+		switch y := n.(type) {
+		case *ast.AssignStmt:
+			for i, l := range y.Lhs {
+				lid, ok := l.(*ast.Ident)
+				if !ok || (info.Defs[lid] != v && info.Uses[lid] != v) {
+					continue
+				}
+				if len(y.Rhs) != len(y.Lhs) {
+					good = false
+					continue
+				}
+				if nm := constName(info, y.Rhs[i]); nm != "" {
+					vals = append(vals, nm)
+				} else {
+					good = false
+				}
+			}
+		case *ast.ValueSpec:
+			for i, nid := range y.Names {
+				if info.Defs[nid] == v {
+					if i < len(y.Values) {
+						if nm := constName(info, y.Values[i]); nm != "" {
+							vals = append(vals, nm)
+						} else {
+							good = false
+						}
+					} else {
+						good = false
+					}
+				}
+			}
+		case *ast.UnaryExpr:
+			if uid, ok := ast.Unparen(y.X).(*ast.Ident); ok && y.Op == token.AND && info.Uses[uid] == v {
+				good = false
+			}
+		}
+		return true
+	})
+	return vals, good && len(vals) > 0
 }
